@@ -321,6 +321,7 @@ def report(prop: str, tier: str, seed: int, mod: Any, obs: list[Ob], results: di
     n_ob = n_dis = 0
     by_backend: dict[str, dict[str, float]] = {}
     table = []
+    restricted_rows: list[str] = []
     bounded = []
     for ob in obs:
         out = results[ob.oid]
@@ -373,6 +374,9 @@ def report(prop: str, tier: str, seed: int, mod: Any, obs: list[Ob], results: di
         }
         if out.detail and out.status != "discharged":
             row["detail"] = out.detail[:2000]
+        if (out.extra or {}).get("restricted_to_default_parameters"):
+            row["restricted_to_default_parameters"] = out.extra["restricted_to_default_parameters"]
+            restricted_rows.append(f"{ob.oid}: proved for calls that leave {', '.join(out.extra['restricted_to_default_parameters'])} at the declared default (an unconstrained value of it is not discharged)")
         table.append(row)
         if ob.tier == "B":
             b = {"id": ob.oid, "title": ob.title, "status": row_status}
@@ -405,6 +409,7 @@ def report(prop: str, tier: str, seed: int, mod: Any, obs: list[Ob], results: di
     functions = sorted({f for o in obs for f in o.functions})
     level = getattr(mod, "LEVEL", "other")
     assumptions = list(getattr(mod, "ASSUMPTIONS", []))
+    assumptions += restricted_rows
     trusted = list(getattr(mod, "TRUSTED_BASE", []))
     undischarged = [r["id"] for r in table if r["tier"] in PROVED_TIERS and r["discharged"] < r["elementary"]]
     if level == "proof" and (n_dis != n_ob):
